@@ -33,33 +33,29 @@ def main():
         for r in L.rows:
             a = r["acc"]
             if r["cls"] in ("PROVEN", "GUARDED"):
-                proven_at[a.key4()].append(a)
+                proven_at[a.key()].append(a)
             elif r["cls"] == "PRECONDITION" and r.get("site"):
-                need_at[a.key4()].append((a, r["why"]))
-        for k4, accs in need_at.items():
-            if k4 not in proven_at:
-                sites[k4] += len(accs)
-                why_of[k4] = accs[0][1]
-                shown[k4] = "%s | %s" % (accs[0][0].show_key(), bounds.norm_text(accs[0][0].stmt))
-                continue
-            # the same statement text is provable elsewhere: qualify with a dominating condition that the provable sites lack
-            others = set(t for p in proven_at[k4] for t in p.cond_texts())
+                need_at[a.key()].append((a, r["why"]))
+        for k3, accs in need_at.items():
             for a, why in accs:
-                q = [t for t in a.cond_texts() if t not in others]
-                if not q:
-                    print("AMBIGUOUS site (cannot qualify): %s" % (k4,))
-                    k = k4
-                else:
-                    k = k4 + (q[0],)
-                sites[k] += 1
-                why_of[k] = why
-                shown[k] = "%s | %s%s" % (a.show_key(), bounds.norm_text(a.stmt), (" @ " + q[0]) if q else "")
+                conds = set(a.relevant_conds())
+                if k3 in proven_at:
+                    # the same access is provable elsewhere in the function: add a dominating condition the provable sites lack
+                    others = set(t for p in proven_at[k3] for t in p.cond_texts())
+                    q = [t for t in a.cond_texts() if t not in others]
+                    if q:
+                        conds.add(q[0])
+                    elif not conds:
+                        print("AMBIGUOUS site (cannot qualify): %s" % (k3,))
+                sid = k3 + (tuple(sorted(conds)),)
+                sites[sid] += 1
+                why_of[sid] = why
+                shown[sid] = "%s%s" % (a.show_key(), (" under " + " && ".join(sorted(conds))) if conds else "")
     for k, v in sorted(sites.items()):
         print("%3d  %s" % (v, shown[k]))
     print("%d sites, %d accesses" % (len(sites), sum(sites.values())))
     if "--write" in sys.argv:
-        rows = [dict(function=k[0], array=k[1], access=k[2], statement=k[3], when=(k[4] if len(k) > 4 else None), n=v,
-                     shown=shown[k], why=why_of[k]) for k, v in sorted(sites.items())]
+        rows = [dict(function=k[0], array=k[1], access=k[2], conds=list(k[3]), n=v, shown=shown[k], why=why_of[k]) for k, v in sorted(sites.items())]
         with open(os.path.join(VERIF, "rules", "c20_sites.json"), "w") as f:
             json.dump(rows, f, indent=0, sort_keys=True)
             f.write("\n")
